@@ -249,7 +249,9 @@ inline void write_stats() {
   const char *out = getenv("VERIF_OUT");
   if (!out || !*out) return;
   auto &s = stats();
-  FILE *f = fopen(out, "w");
+  // written to a temporary name and renamed, so that a reader (or a kill) never sees half a file
+  const std::string tmp_name = std::string(out) + ".tmp";
+  FILE *f = fopen(tmp_name.c_str(), "w");
   if (!f) return;
   fprintf(f, "{\"evaluations\":%" PRIu64 ",\"rule\":%s,\"classes\":{", s.evaluations, jstr(s.rule).c_str());
   bool first = true;
@@ -272,6 +274,16 @@ inline void write_stats() {
   if (s.have_exhaustive) fprintf(f, ",\"exhaustive\":%s", s.exhaustive ? "true" : "false");
   fprintf(f, "}\n");
   fclose(f);
+  rename(tmp_name.c_str(), out);
+}
+// Partial statistics every 30 s: a shard that is stopped by the driver's time limit still reports what it explored.
+inline void write_stats_periodically() {
+  static time_t last = time(nullptr);
+  const time_t now = time(nullptr);
+  if (now - last >= 30) {
+    last = now;
+    write_stats();
+  }
 }
 
 // ---------------------------------------------------------------------------------------------
@@ -542,6 +554,7 @@ inline int harness_main(int argc, char **argv, const Harness &h) {
     std::string msg = h.run(mode);
     clear_pending();
     stats().evaluations++;
+    if (!first_failure_at) write_stats_periodically();
     if (!msg.empty()) {
       auto &c = current_case();
       c.message = msg;
